@@ -135,16 +135,20 @@ def lean_sources():
     return sorted(p for p in (LEAN / "SolverzModel").rglob("*.lean")) + [LEAN / "Driver.lean"]
 
 
-def prove(prop_id: str, extra_modules=()):
+def prove(prop_id: str, extra_modules=(), extra_files=()):
     """Build Properties/<id>.lean, audit the axioms of every theorem declared there.
 
     Returns dict(obligations, discharged, failed=[...], log, names, axioms)."""
     mod = f"SolverzModel.Properties.{prop_id}"
     pfile = LEAN / "SolverzModel" / "Properties" / f"{prop_id}.lean"
     names = theorem_names(pfile)
+    mods = [mod]
+    for xf in extra_files:                       # further property files of the same property (e.g. the thorough-tier part)
+        names += theorem_names(LEAN / "SolverzModel" / "Properties" / f"{xf}.lean")
+        mods.append(f"SolverzModel.Properties.{xf}")
     res = dict(obligations=len(names), discharged=0, failed=[], names=names, log="", axioms={},
                checker_cmd=f"cd lean && lake build {mod} && lake env lean <generated #print axioms file>")
-    ok, log = lake_build([mod, *extra_modules])
+    ok, log = lake_build([*mods, *extra_modules])
     res["log"] = log[-6000:]
     if not ok:
         # which theorems failed?  (error lines mention the file; we conservatively fail all
@@ -166,7 +170,7 @@ def prove(prop_id: str, extra_modules=()):
         return res
     audit = LEAN / ".lake" / f"Audit_{prop_id}.lean"
     audit.parent.mkdir(exist_ok=True)
-    audit.write_text(f"import {mod}\n" + "".join(f"#print axioms {n}\n" for n in names))
+    audit.write_text("".join(f"import {m}\n" for m in mods) + "".join(f"#print axioms {n}\n" for n in names))
     lk = _lock()
     try:
         p = subprocess.run(["lake", "env", "lean", str(audit)], cwd=LEAN, capture_output=True, text=True, timeout=1200)
@@ -253,6 +257,16 @@ class Report:
         self.cov["checker_cmd"] = pr["checker_cmd"]
         self.cov.setdefault("theorems", []).extend(pr["names"])
         self.cov.setdefault("axioms_used", sorted({a for v in pr["axioms"].values() for a in v}))
+        if self.tier == "thorough" and not pr["failed"]:
+            # independent re-check of the compiled property module by the toolchain's kernel replayer
+            mod = f"SolverzModel.Properties.{self.id}"
+            try:
+                ok, log = leanchecker([mod])
+            except Exception as ex:  # noqa
+                ok, log = False, f"{type(ex).__name__}: {ex}"
+            self.cov["leanchecker"] = dict(module=mod, ok=bool(ok), tail=log[-300:])
+            if not ok:
+                return pr["failed"] + [f"leanchecker rejects {mod}: {log[-200:]}"]
         return pr["failed"]
 
     def violation(self, what, payload, has_input=True):
